@@ -327,7 +327,8 @@ def _oracle_session(ctx, case, errs, data, back):
     expect = 20 + 3 * w * (2 if len(recs[0]) == 10 else 1)
     if lens != {expect}:
         fails.append(("line-length-varies", {"lengths": sorted(lens), "expected": expect}))
-    if tuple(back["fmt"]) != (w, w - 5) or back["vel"] != (len(recs[0]) == 10):
+    if (back["fmt"] is not G.MISSING and tuple(back["fmt"]) != (w, w - 5)) or \
+            (back["vel"] is not G.MISSING and back["vel"] != (len(recs[0]) == 10)):
         fails.append(("format-not-recovered", {"set": [w, d], "read": back["fmt"], "vel": back["vel"]}))
     ctx.oracle_ok(2)
     return fails
@@ -703,7 +704,7 @@ def _eval_reader(ctx, case):
                     same = False
             else:
                 same = ri == rm
-            if not same or pi != pm or ci != cm:
+            if not same or pi != pm or (ci != cm and ci is not G.MISSING):
                 ctx.disagree(case, f"reader op #{i} {case['rops'][i]!r}: result / tell() / _current_atom",
                              [ri, pi, ci], [rm, pm, cm])
                 return
